@@ -40,6 +40,7 @@ func main() {
 		// RDF canonicalisation
 		vlib.Group{Name: "rdf-c14n-invariance", Gen: genRDFInvariance},
 		vlib.Group{Name: "rdf-iso-pairs", Gen: genRDFIsoPairs},
+		vlib.Group{Name: "rdf-quad-iso", Gen: genRDFQuadIso},
 		vlib.Group{Name: "rdf-dedup", Gen: genRDFDedup},
 		// JSON graph formats
 		vlib.Group{Name: "json-formats", Gen: genJSONFormats},
